@@ -1360,8 +1360,8 @@ func (self *BinaryServerProtocol) ProcessParseLockData() (*protocol.LockCommandD
 	if err != nil {
 		return nil, err
 	}
-	if len(buf) < 6 {
-		return nil, errors.New("lock data frame too short")
+	if !protocol.IsLockCommandDataFrame(buf) {
+		return nil, errors.New("lock data frame error")
 	}
 	return protocol.NewLockCommandDataFromOriginBytes(buf), nil
 }
